@@ -80,25 +80,28 @@ MergeFails(ev) ==
          \cup (IF \E q \in 1..Len(ev.res) : ev.res[q].m \in masses /\ AFix(ev.res[q].a) # Want(ev.res[q].m) THEN {"merged_abundance_is_not_the_sum"} ELSE {})
          \cup (IF ~SortedByMass(ev.res) THEN {"merged_not_sorted"} ELSE {})
 
-(* k = "exact": composition of at most 12 atoms over C,H,N,O,S,P (integer counts), default options.             *)
+(* k = "exact": composition of at most 12 atoms over C,H,N,O,S,P,Cl,Br,Fe,Se (integer counts), default options.  *)
 (* ev.peaks = <<[m |-> Fix mass, a8 |-> abundance in 1e-8 units, relative to the largest peak]>>                   *)
-(* Library masses are rounded to 5 decimals after every element is folded in, so peaks are matched within          *)
-(* 5e-6 Da x (number of elements + 1); abundances relative to the largest peak must agree within 3e-6 wherever     *)
-(* either side is above 1e-6.                                                                                       *)
-NearMK(a, b, k) == FWithin(a, b, Micro(5 * (k + 1)))
+(* Library masses are rounded to 5 decimals after every element is folded in, so a library peak lies within        *)
+(* r = 5e-6 Da x (number of elements + 1) of its exact isotopologue.  Isotopologues can be closer to each other     *)
+(* than that (57Fe vs 56Fe+D: 2.4e-5), so the comparison brackets: the library abundance within 2r of a mass is     *)
+(* at least the exact abundance within r and at most the exact abundance within 3r (relative to the largest peak,  *)
+(* within 3e-6), wherever either side is above 1e-6.                                                                *)
+NearW(a, b, w) == FWithin(a, b, Micro(w))
 ExactFails(ev) ==
     IF ev.out # "ret" THEN {"raised_" \o ev.out}
     ELSE LET E == Exact(ev.comp)
              mx == MaxAb(E)
-             (* exact abundance near a mass, relative to the exact maximum, in 1e-8 units *)
-             ExactNear(m) == SumAb({ d \in E : NearMK(d[1], m, Len(ev.comp)) })
-             LibNear(m) == LET S == { q \in 1..Len(ev.peaks) : NearMK(ev.peaks[q].m, m, Len(ev.comp)) } IN
+             r == 5 * (Len(ev.comp) + 1)
+             ExactIn(m, w) == SumAb({ d \in E : NearW(d[1], m, w) })
+             LibNear(m) == LET S == { q \in 1..Len(ev.peaks) : NearW(ev.peaks[q].m, m, 2 * r) } IN
                            SumAb({ <<q, ev.peaks[q].a8>> : q \in S })
-             (* compare x/mx (exact) with y/1e8 (library, already relative): |x * 1e8 - y * mx| <= tol * mx, done limb-wise *)
-             Close(x, y) == LET lhs == MulA(y, mx) IN (x >= lhs - 300 - mx \div 400000) /\ (x <= lhs + 300 + mx \div 400000) IN
-         (IF \E d \in E : d[2] >= mx \div 1000000 + 200 /\ ~Close(ExactNear(d[1]), LibNear(d[1]))
+             (* compare x/mx (exact) with y/1e8 (library, already relative), limb-wise *)
+             Slack == 300 + mx \div 400000
+             Bracketed(m) == LET lhs == MulA(LibNear(m), mx) IN ExactIn(m, r) <= lhs + Slack /\ lhs <= ExactIn(m, 3 * r) + Slack IN
+         (IF \E d \in E : d[2] >= mx \div 1000000 + 200 /\ ~Bracketed(d[1])
           THEN {"exact_peak_missing_or_wrong_abundance"} ELSE {})
-         \cup (IF \E q \in 1..Len(ev.peaks) : ev.peaks[q].a8 >= 300 /\ ~Close(ExactNear(ev.peaks[q].m), LibNear(ev.peaks[q].m))
+         \cup (IF \E q \in 1..Len(ev.peaks) : ev.peaks[q].a8 >= 300 /\ ~Bracketed(ev.peaks[q].m)
                THEN {"returned_peak_not_in_exact_expansion"} ELSE {})
 
 (* k = "threshold": ev.full = the pattern without options, ev.thr = the pattern with min_abundance_threshold = t     *)
